@@ -12,6 +12,22 @@ Theorem call_lib_passes_stack :
   exec_instr ffi1 (CallLib lib f) s = exec_instr ffi2 (CallLib lib f) s.
 Proof. intros ffi1 ffi2 lib f s H. cbn [exec_instr]. rewrite H. reflexivity. Qed.
 
+(* a whole run consults the foreign world only at (library, symbol) pairs that ONE call_lib instruction of the program
+   names together: what symbol S does in library A is irrelevant to an instruction naming (B, S), however often and in
+   whatever order A's S was called before - there is no state carried from one foreign call to the next *)
+Theorem run_consults_named_pairs_only :
+  forall (ffi1 ffi2 : str -> str -> list value -> ffi_outcome) (prog : list instr),
+  (forall lib f args, In (CallLib lib f) prog -> ffi1 lib f args = ffi2 lib f args) ->
+  forall (ip : nat) (s : vm), run_from ffi1 ip prog s = run_from ffi2 ip prog s.
+Proof.
+  intros ffi1 ffi2 prog. induction prog as [|i rest IH]; intros H ip s; [reflexivity|].
+  cbn [run_from].
+  assert (E : exec_instr ffi1 i (mark ip s) = exec_instr ffi2 i (mark ip s)).
+  { destruct i; try reflexivity. apply call_lib_passes_stack. apply H. left. reflexivity. }
+  rewrite E. destruct (exec_instr ffi2 i (mark ip s)); try reflexivity.
+  apply IH. intros lib f args Hin. apply H. right. exact Hin.
+Qed.
+
 Section WithFfi.
 Variable ffi : str -> str -> list value -> ffi_outcome.
 
